@@ -64,7 +64,7 @@ def make_module(r):
             name = "func%d" % i
             f["method"] = False
             f["name"] = name
-            src = defgen.function_src(f)
+            src = defgen.function_src(f).replace("    return None\n", "    value = %d\n    return value\n" % i)
             entries.append((name, "function", f))
         parts.append(src)
     imports = r.sample(IMPORT_LINES[:4], r.randint(0, 3))
@@ -262,6 +262,13 @@ class C19(Prop):
             fdef = [n for n in ast.walk(src_node) if isinstance(n, ast.FunctionDef)][0]
             sig = [a.arg for a in fdef.args.args + fdef.args.kwonlyargs if a.arg not in ("self", "cls")]
             names = interface_names(c["type"], d)
+            if c["type"] == "argparse":
+                foreign = [ast.unparse(x) for x in d.body if not _argparse_stmt_ok(x)]
+                last = d.body[-1] if d.body else None
+                if foreign:
+                    fails.append({"what": "foreign statement in a generated argparse function", "name": d.name, "statements": foreign[:3]})
+                if not (isinstance(last, ast.Return) and "argument_parser" in ast.unparse(last)):
+                    fails.append({"what": "generated argparse function does not end by returning the parser", "name": d.name})
             if sorted(names) != sorted(sig):
                 fails.append({"what": "generated definition does not have the parameters of its source object", "name": d.name, "want": sig, "got": names})
         return fails
@@ -270,6 +277,16 @@ class C19(Prop):
         if fl.get("what") == "gen raised" and c.get("annotated"):
             return "C19-D18-annotated-callable-raises"
         return None
+
+
+def _argparse_stmt_ok(x):
+    if isinstance(x, ast.Expr) and isinstance(x.value, ast.Constant) and isinstance(x.value.value, str):
+        return True
+    if isinstance(x, ast.Assign) and ast.unparse(x.targets[0]) == "argument_parser.description":
+        return True
+    if isinstance(x, ast.Expr) and isinstance(x.value, ast.Call) and ast.unparse(x.value.func) == "argument_parser.add_argument":
+        return True
+    return isinstance(x, ast.Return)
 
 
 def interface_names(type_, node):
